@@ -179,8 +179,23 @@ var (
 	vEdgeOther   = []rune("אבגשעبتثकखगกขด")
 	vInnerWild   = []string{" ", "  ", "/", ".", "_", "'", "(", ")", "%", "+", "&", ",", "\"", ":", "-", "#", "=", ", ", ": ", " - ", " #", "\\", "\": ", "\\ "}
 	vInnerTame   = []string{" ", "/", ".", "_", "-", "'", "&", "+", "%", "(", ")", ",", "<", ">", ";"}
-	vEdgeClasses = [][]rune{vEdgeASCII, vEdgeASCII, vEdgeASCII, vEdgeDigits, vEdgeCyr, vEdgeGreek, vEdgeCJK, vEdgeLatin, vEdgeOther}
+	vEdgeClasses = [][]rune{vEdgeASCII, vEdgeASCII, vEdgeASCII, vEdgeDigits, vEdgeCyr, vEdgeGreek, vEdgeCJK, vEdgeLatin, vEdgeOther, vEdgeLowByte()}
 )
+
+// vEdgeLowByte: letters whose code point ends in the byte of a character the format gives a meaning to (tab, newline,
+// blank, quote, #, -, /, :): U+0423 У, U+0123 ģ, U+0623 أ, U+0E23 ร, U+4E2D 中 ... A parser that looks at a truncated
+// rune, or at one byte of a wider unit, takes them for that character.
+func vEdgeLowByte() []rune {
+	var out []rune
+	for _, b := range []rune{0x09, 0x0a, 0x0d, 0x20, 0x22, 0x23, 0x27, 0x2d, 0x2f, 0x3a} {
+		for _, page := range []rune{0x0100, 0x0400, 0x0600, 0x0900, 0x0e00, 0x4e00, 0x9000, 0x5700, 0xac00} {
+			if r := page + b; unicode.IsLetter(r) {
+				out = append(out, r)
+			}
+		}
+	}
+	return out
+}
 
 func vGenEdgeRune(t *rapid.T, label string) rune {
 	cl := vEdgeClasses[rapid.IntRange(0, len(vEdgeClasses)-1).Draw(t, label+".class")]
@@ -549,6 +564,7 @@ type vBookOpts struct {
 	NoWide     bool // never add the occasional pair of 30-60 element recipes
 	PathSegs   []string // segment alphabet for Paths (default a, b, c, dd, "e f")
 	PathMax    int      // maximum number of segments (default 3)
+	NoTwins    bool     // never add the pair of recipes whose glued (recipe, element) texts coincide
 }
 
 type vBookInfo struct {
@@ -700,6 +716,22 @@ func vGenBook(t *rapid.T, o vBookOpts, label string) (vDoc, vBookInfo) {
 				{Kind: vkEntry, Name: w2, Num: coef(label + ".wc2"), L: vGenEntryLayout(t, o.Layout, label+".wel")}}})
 		nrec = len(recs)
 	}
+	// one book in 8 gets a pair of recipes whose (recipe, element) pairs spell the same text when glued together:
+	// A with element B<sep>C, and A<sep>B with element C. Anything keyed by a concatenation takes them for one.
+	if !o.NoTwins && rapid.IntRange(0, 7).Draw(t, label+".twins") == 0 {
+		sep := []string{"/", "/", "", " ", ",", "-", ".", "|"}[rapid.IntRange(0, 7).Draw(t, label+".twinsep")]
+		a, b, c := "tw~a", "b~", "c~x"
+		num := func(l string) string {
+			if o.Exact {
+				return vGenLeafExact(t, l)
+			}
+			return vGenNumDecimal(t, l)
+		}
+		recs = append(recs,
+			vRec{Head: a, HL: vGenHeadLayout(t, o.Layout, label+".twhl"), Lines: []vLine{{Kind: vkEntry, Name: b + sep + c, Num: num(label + ".twv1"), L: vGenEntryLayout(t, o.Layout, label+".twel")}}},
+			vRec{Head: a + sep + b, HL: vGenHeadLayout(t, o.Layout, label+".twhl"), Lines: []vLine{{Kind: vkEntry, Name: c, Num: num(label + ".twv2"), L: vGenEntryLayout(t, o.Layout, label+".twel")}}})
+		nrec = len(recs)
+	}
 	// declaration order: random permutation
 	if nrec > 1 {
 		perm := rapid.Permutation(vIota(nrec)).Draw(t, label+".perm")
@@ -790,6 +822,8 @@ func vFmtDay(day int, layout string) string {
 		return fmt.Sprintf("%d %s %04d", d, vMonthAbbr[m-1], y)
 	case "20060102":
 		return fmt.Sprintf("%04d%02d%02d", y, m, d)
+	case "2006-01-02 15:04 -0700": // midnight UTC; records with a time of day and an offset are rendered by their generator
+		return fmt.Sprintf("%04d-%02d-%02d 00:00 +0000", y, m, d)
 	case "2006-01-02 15:04": // midnight; records with a time of day are rendered by their generator
 		return fmt.Sprintf("%04d-%02d-%02d 00:00", y, m, d)
 	}
@@ -864,4 +898,17 @@ func vGenLog(t *rapid.T, o vLogOpts, label string) (vDoc, []int) {
 	d := vDoc{Recs: recs}
 	vDecorate(t, &d, o.Layout, o.Notes, label+".deco")
 	return d, days
+}
+
+// vGenZoneHead renders a record heading for the layout "2006-01-02 15:04 -0700": a time of day (often within an hour or
+// two of midnight) and a numeric UTC offset. The calendar day the record is logged under is the one written.
+var vZoneOffsets = []string{"+0000", "+0200", "-0700", "+0530", "+1300", "-1100", "+0545", "-0330", "+1400", "-1200"}
+
+func vGenZoneHead(t *rapid.T, day int, label string) string {
+	mins := rapid.IntRange(0, 1439).Draw(t, label+".minutes")
+	if rapid.Bool().Draw(t, label+".nearmidnight") {
+		mins = []int{0, 1, 29, 30, 59, 75, 119, 1320, 1380, 1410, 1438, 1439}[rapid.IntRange(0, 11).Draw(t, label+".nm")]
+	}
+	off := vZoneOffsets[rapid.IntRange(0, len(vZoneOffsets)-1).Draw(t, label+".off")]
+	return fmt.Sprintf("%s %02d:%02d %s", vFmtDay(day, "2006-01-02"), mins/60, mins%60, off)
 }
